@@ -860,7 +860,9 @@ class C17(Check):
             if floats(o["d"]) != want:
                 self.violate("stream", "uniform stream for seed %d differs from mt19937/uniform[0,1)" % s, {"seed": s})
         # (ii) starts of real runs: multiset per realization == i-th consecutive segment
+        # a third of the calls hand in non-zero output containers: starts must not depend on them
         runs = {"in%d" % k: random_run(rng, tr=1, variants=ALL_VARIANTS, r=rng.randint(1, 5), maxit=1,
+                                       prior=rng.choice([0.0, 0.0, 4.0]),
                                        seed=rng.choice([rng.randint(0, 2 ** 32), 2 ** 32 + rng.randint(0, 1000)]))
                 for k in range(120 if self.tier == "quick" else 1500)}
         io2, mo2 = self.correspond("run", [rc.line(c) for c, rc in runs.items()],
@@ -975,6 +977,31 @@ class C18(Check):
                     self.nontrivial((R, Cc, T))
                     if bad:
                         self.violate("layout", "R=%d C=%d T=%d: %s" % (R, Cc, T, "; ".join(bad)), {"R": R, "C": Cc, "T": T, "case": "replay idx %d %d %d" % (R, Cc, T)})
+        # multi-step use: a sized tensor resized to another shape (same or different element count)
+        rcases = []
+        shapes = [(R, Cc, T) for R in range(1, 4) for Cc in range(1, 4) for T in range(1, 4)]
+        for (R, Cc, T) in shapes:
+            for (R2, C2, T2) in shapes:
+                if (R, Cc, T) != (R2, C2, T2) and (R * Cc * T == R2 * C2 * T2 or (R + Cc + T2) % 5 == 0):
+                    rcases.append("rt%d%d%d_%d%d%d idxr t %d %d %d %d %d %d" % (R, Cc, T, R2, C2, T2, R, Cc, T, R2, C2, T2))
+        for kind in "msd":
+            for (R, T) in [(2, 3), (3, 2), (1, 4), (4, 1), (2, 2), (6, 1), (1, 6), (3, 4), (4, 3), (2, 6)]:
+                for (R2, T2) in [(3, 2), (2, 3), (4, 1), (1, 4), (6, 1), (2, 2), (4, 3), (3, 4), (6, 2)]:
+                    rcases.append("r%s%d%d_%d%d idxr %s %d %d %d %d %d %d" % (kind, R, T, R2, T2, kind, R, T, T, R2, T2, T2))
+        ior, _ = self.correspond("idx-after-resize", rcases)
+        for line in rcases:
+            cid = line.split()[0]
+            o = ior.get(cid)
+            if not o or "pos" not in o:
+                continue
+            self.monitor("resized tensors")
+            dims = [int(x) for x in o["dims"]]
+            R2, C2, T2 = dims
+            want = [a * R2 * C2 + j * R2 + i for i in range(R2) for j in range(C2) for a in range(T2)]
+            self.nontrivial(("resize", cid))
+            if [int(x) for x in o["pos"]] != want or int(o["size"][0]) != R2 * C2 * T2:
+                self.violate("layout-after-resize", "after a resize the element (i,j,a) is not at a*R*C + j*R + i of the new shape %s" % dims,
+                             {"case": line})
         # the writer
         wcases, meta = [], {}
         for K in range(1, 7):
